@@ -188,4 +188,20 @@ def clipK (start stop size : Int) : Int × Int := (max 0 start, min size stop)
 def extendK (fwd : Bool) (start stop len size : Int) : Int × Int :=
   (if fwd then start else max (stop - len) 0, if fwd then min (start + len) size else stop)
 
+/-! ### exported `get_pileup`: the part that lives in the repository -/
+
+/-- `get_pileup(intervals, size)`: an empty set gives the run-length array `[0, size] / [0]`; otherwise the counting
+is delegated to npstructures (`RunLength2dArray.from_intervals(...).sum(axis=0)`, specified external `ext`) -/
+def getPileup (ext : List Iv → Nat → List Nat) (I : List Iv) (size : Nat) : List Nat :=
+  if I.isEmpty then (Rle.toDense ⟨[0, size], [0]⟩) else ext I size
+
+/-! ### `Geometry.clip` / `Geometry.extend_to_size`: the size is looked up per row by chromosome -/
+
+/-- row = (chromosome index, start, stop); `global_offset.get_size(intervals.chromosome)` is `sizes[chrom]` -/
+def geoClip (chromSizes : List Int) (rows : List (Nat × Int × Int)) : List (Int × Int) :=
+  rows.map (fun r => clipK r.2.1 r.2.2 (chromSizes.getD r.1 0))
+
+def geoExtend (chromSizes : List Int) (len : Int) (rows : List (Nat × Bool × Int × Int)) : List (Int × Int) :=
+  rows.map (fun r => extendK r.2.1 r.2.2.1 r.2.2.2 len (chromSizes.getD r.1 0))
+
 end C08
